@@ -96,6 +96,9 @@ fn main() {
             }
         });
     }
+    // every NaN is the same null (DESIGN 5.4)
+    let pairs_nan = pairs.nan_kinds(run.pick(3, 4));
+    let trend_nan = trend.nan_kinds(run.pick(5, 6));
     if let Some(path) = &run.replay {
         let stored = load_replay(path).unwrap_or_else(|e| {
             eprintln!("MACHINERY-ERROR: {e}");
@@ -107,6 +110,10 @@ fn main() {
         let word = syms_from_json(&case["word"]);
         if fam == "trend" {
             trend.check_word(&word, &mut ctx);
+        } else if fam == pairs_nan.name {
+            pairs_nan.check_word(&word, &mut ctx);
+        } else if fam == trend_nan.name {
+            trend_nan.check_word(&word, &mut ctx);
         } else {
             let (a, b) = (word_from_json(&case["first"]), word_from_json(&case["second"]));
             for f in [&pairs, &pairs_m, &col] {
@@ -118,8 +125,20 @@ fn main() {
         std::process::exit(finish_replay(&run, &stored, ctx));
     }
     let mut total = explore_tree(&pairs, run.threads);
+    total.merge(explore_tree(&pairs_nan, run.threads));
+    total.merge(explore_tree(&trend_nan, run.threads));
     total.merge(explore_tree(&pairs_m, run.threads));
     total.merge(explore_tree(&trend, run.threads));
+    {
+        let balpha: Vec<X> = vec![None, Some(0.0), Some(1.0), Some(3.0)];
+        let bw = all_words_upto(balpha.len(), run.pick(4, 5));
+        let bfns: Vec<R1> = V1_REG.to_vec();
+        let bfns2: Vec<R2> = V2_ALL.to_vec();
+        total.merge(par_items(&bw, run.threads, |w, ctx| {
+            ctx.states += 1;
+            check_backends_value("backends", &bfns, &bfns2, Law::Value, w, &balpha, cfg_all, ctx)
+        }));
+    }
     {
         let mut t = Ctx::new();
         check_structured_pairs(&pairs, !run.quick(), &mut t);
